@@ -13,6 +13,7 @@ import (
 	"errors"
 	"fmt"
 	"io"
+	"os"
 	"reflect"
 	"runtime"
 	"sort"
@@ -36,7 +37,7 @@ import (
 var (
 	addrs      = []uint64{16, 17, 18, 19, 20, 21}
 	baseDeploy = []uint64{16, 17, 18} // deployed in the canonical base; 19..21 may be deployed by views
-	slots      = []uint64{1, 2, 3}
+	slots      = []uint64{1, 2, 3, 4, 5}
 	classes    = []uint64{40, 41, 42, 43, 50, 51}
 	hashLo     = uint64(100)
 	hashHi     = uint64(124)
@@ -186,7 +187,11 @@ func wireItems(its []Item, fault bool) ([]starknet.Transaction, []*starknet.Tran
 		sig := []felt.Felt{}
 		txs[i] = starknet.Transaction{Hash: F(it.Hash), Type: starknet.TxnInvoke, Version: F(1), Nonce: F(it.Tx),
 			CallData: &empty, Signature: &sig, SenderAddress: F(77)}
-		rcs[i] = &starknet.TransactionReceipt{TransactionHash: F(it.RHash), ActualFee: F(it.Rc),
+		status := starknet.Succeeded
+		if it.Rc%2 == 1 {
+			status = starknet.Reverted // reverted txs still carry a diff (nonce, fee): it must be folded like any other
+		}
+		rcs[i] = &starknet.TransactionReceipt{TransactionHash: F(it.RHash), ActualFee: F(it.Rc), ExecutionStatus: status,
 			Events: []*starknet.Event{{From: F(it.Hash), Keys: []felt.Felt{*F(it.Tx)}, Data: []felt.Felt{}}}}
 		sds[i] = wireDiff(it.D, fault && i == len(its)-1)
 	}
@@ -299,8 +304,15 @@ func classID(c core.ClassDefinition) uint64 {
 // canonEntry also asserts the model's representation assumptions; a broken one comes back in bad.
 func canonEntry(pc *pending.PreConfirmed) (string, string) {
 	bad := ""
-	b := pc.Block
-	n := len(b.Transactions)
+	b := pc.GetBlock()
+	n := len(pc.GetTransactions())
+	if b != pc.Block || pc.GetHeader() != b.Header || pc.GetStateUpdate() != pc.StateUpdate ||
+		len(pc.GetNewClasses()) != len(pc.NewClasses) || len(pc.GetTransactionStateDiffs()) != len(pc.TransactionStateDiffs) {
+		bad = "accessor: pending.PreConfirmed getters disagree with the fields"
+	}
+	if cp := pc.Copy(); cp == pc || cp.Block != pc.Block || cp.BlockIdentifier != pc.BlockIdentifier {
+		bad = "accessor: Copy is not a shallow copy"
+	}
 	if len(b.Receipts) != n || len(pc.TransactionStateDiffs) != n || b.TransactionCount != uint64(n) {
 		bad = fmt.Sprintf("block %d: txs=%d receipts=%d txdiffs=%d Header.TransactionCount=%d", b.Number, n, len(b.Receipts), len(pc.TransactionStateDiffs), b.TransactionCount)
 	}
@@ -316,6 +328,9 @@ func canonEntry(pc *pending.PreConfirmed) (string, string) {
 			payload = u64(inv.Nonce)
 		}
 		rc := b.Receipts[i]
+		if rc.Reverted != (u64(rc.Fee)%2 == 1) {
+			bad = fmt.Sprintf("reverted-flag: block %d tx %d receipt Reverted=%v, sent fee payload %d", b.Number, i, rc.Reverted, u64(rc.Fee))
+		}
 		its = append(its, fmt.Sprintf("%d:%d:%d:%d:%s", u64(tx.Hash()), payload, u64(rc.TransactionHash), u64(rc.Fee), canonDiff(pc.TransactionStateDiffs[i])))
 	}
 	items := "-"
@@ -352,7 +367,7 @@ func canonChain(v *preconfirmed.ChainReader) (string, string) {
 
 // ---------- reflective deep fingerprint: every field reachable from a view ----------
 func deep(w io.Writer, v reflect.Value, depth int) {
-	if depth > 60 {
+	if depth > 20000 { // only a guard against cycles; a cut-off inside map keys would make their order arbitrary
 		io.WriteString(w, "<deep>")
 		return
 	}
@@ -408,7 +423,7 @@ func deep(w io.Writer, v reflect.Value, depth int) {
 			deep(&vb, it.Value(), depth+1)
 			l = append(l, kv{kb.String(), vb.String()})
 		}
-		sort.Slice(l, func(i, j int) bool { return l[i].k < l[j].k })
+		sort.Slice(l, func(i, j int) bool { return l[i].k < l[j].k || (l[i].k == l[j].k && l[i].v < l[j].v) })
 		fmt.Fprintf(w, "m%d{", len(l))
 		for _, e := range l {
 			io.WriteString(w, e.k+"->"+e.v+";")
@@ -429,7 +444,17 @@ func deep(w io.Writer, v reflect.Value, depth int) {
 	}
 }
 
+var fpDebug map[string]string // C20_DEBUG_FP: fingerprint -> the walk it is the hash of
+
 func fingerprint(v *preconfirmed.ChainReader) string {
+	if fpDebug != nil {
+		var sb strings.Builder
+		deep(&sb, reflect.ValueOf(v).Elem(), 0)
+		sum := sha256.Sum256([]byte(sb.String()))
+		fp := hex.EncodeToString(sum[:12])
+		fpDebug[fp] = sb.String()
+		return fp
+	}
 	h := sha256.New()
 	deep(h, reflect.ValueOf(v).Elem(), 0)
 	return hex.EncodeToString(h.Sum(nil)[:12])
@@ -509,36 +534,83 @@ type gen struct {
 
 func pick(r *hx.RNG, l []uint64) uint64 { return l[r.Intn(len(l))] }
 
+// distinct picks k distinct elements of l (k <= len(l)).
+func distinct(r *hx.RNG, l []uint64, k int) []uint64 {
+	c := append([]uint64(nil), l...)
+	for i := 0; i < k; i++ {
+		j := i + r.Intn(len(c)-i)
+		c[i], c[j] = c[j], c[i]
+	}
+	return c[:k]
+}
+
+// writes appends k distinct slots of contract a (values 0..15, zero included).
+func (g *gen) writes(d *Diff, a uint64, k int) {
+	for _, s := range distinct(g.r, slots, k) {
+		dup := false
+		for _, x := range d.S {
+			dup = dup || (x[0] == a && x[1] == s)
+		}
+		if !dup {
+			d.S = append(d.S, [3]uint64{a, s, uint64(g.r.Intn(16))})
+		}
+	}
+}
+
+// diff: per-contract storage maps of very different sizes across transactions / blocks / deltas
+// with overlapping keys: a "hot" contract gets one-slot writes, then wide writes (2..5 slots) that
+// are strictly larger than what was accumulated and rewrite it; also equal, smaller and disjoint
+// shapes, several contracts per tx; nonces / class hashes / declarations repeat on few addresses.
 func (g *gen) diff() Diff {
 	r := g.r
 	var d Diff
-	seenS := map[[2]uint64]bool{}
-	for i := r.Intn(3); i > 0; i-- {
-		a := pick(r, baseDeploy)
-		if r.Chance(20) {
-			a = pick(r, addrs)
-		}
-		k := pick(r, slots)
-		if seenS[[2]uint64{a, k}] {
-			continue
-		}
-		seenS[[2]uint64{a, k}] = true
-		d.S = append(d.S, [3]uint64{a, k, uint64(r.Intn(8))})
-	}
+	hot := baseDeploy[0]
 	if r.Chance(30) {
-		d.N = append(d.N, [2]uint64{pick(r, addrs[:4]), uint64(1 + r.Intn(9))})
+		hot = pick(r, baseDeploy)
+	}
+	switch x := r.Intn(100); {
+	case x < 12: // nothing
+	case x < 40:
+		g.writes(&d, hot, 1)
+	case x < 62:
+		g.writes(&d, hot, 2+r.Intn(len(slots)-1)) // wide: 2..all slots of one contract
+	case x < 78:
+		g.writes(&d, pick(r, baseDeploy), 1+r.Intn(3))
+		g.writes(&d, pick(r, addrs), 1+r.Intn(len(slots)))
+	default:
+		for i := 1 + r.Intn(2); i > 0; i-- {
+			g.writes(&d, pick(r, addrs), 1+r.Intn(2))
+		}
+	}
+	if r.Chance(40) {
+		a := hot
+		if r.Chance(40) {
+			a = pick(r, addrs[:4])
+		}
+		d.N = append(d.N, [2]uint64{a, uint64(1 + r.Intn(15))})
+		if r.Chance(25) {
+			if b := pick(r, addrs[:4]); b != a {
+				d.N = append(d.N, [2]uint64{b, uint64(1 + r.Intn(15))})
+			}
+		}
 	}
 	if r.Chance(12) {
 		d.D = append(d.D, [2]uint64{pick(r, addrs[3:]), pick(r, classes[:4])})
 	}
-	if r.Chance(10) {
-		d.R = append(d.R, [2]uint64{pick(r, addrs[:5]), pick(r, classes[:4])})
+	if r.Chance(16) {
+		a := hot
+		if r.Chance(50) {
+			a = pick(r, addrs[:5])
+		}
+		d.R = append(d.R, [2]uint64{a, pick(r, classes[:4])})
 	}
-	if r.Chance(10) {
-		d.C = append(d.C, [2]uint64{pick(r, classes[4:]), uint64(60 + r.Intn(4))})
+	if r.Chance(14) {
+		for _, h := range distinct(r, classes[4:], 1+r.Intn(2)) {
+			d.C = append(d.C, [2]uint64{h, uint64(60 + r.Intn(8))})
+		}
 	}
-	if r.Chance(6) {
-		d.M = append(d.M, [2]uint64{pick(r, classes[4:]), uint64(70 + r.Intn(4))})
+	if r.Chance(8) {
+		d.M = append(d.M, [2]uint64{pick(r, classes[4:]), uint64(70 + r.Intn(8))})
 	}
 	if r.Chance(6) {
 		d.C0 = append(d.C0, pick(r, classes[:4]))
@@ -555,7 +627,11 @@ func (g *gen) items(n int) []Item {
 		if g.r.Chance(8) {
 			rh = hashLo + uint64(g.r.Intn(int(hashHi-hashLo)))
 		}
-		its[i] = Item{Hash: h, Tx: g.nextTx, RHash: rh, Rc: g.nextTx + 5000, D: g.diff()}
+		rc := 2 * (g.nextTx + 5000)
+		if g.r.Chance(25) {
+			rc++ // REVERTED
+		}
+		its[i] = Item{Hash: h, Tx: g.nextTx, RHash: rh, Rc: rc, D: g.diff()}
 	}
 	return its
 }
@@ -845,18 +921,78 @@ func (rn *runner) checkReads(node *chain.Node, h *held, rng *hx.RNG) {
 	for i, q := range allQueries {
 		qb.WriteString(" " + q + "=" + baseVals[i])
 	}
+	// the predicates are evaluated on the view the CODE holds (its own per-transaction diffs as adapted
+	// from the wire), registered with the oracle by its canonical text; equality of that view with the
+	// model's is checked where the snapshot is taken
+	var cvid int
+	fmt.Sscanf(rn.or.Ask("view "+h.canon, 1)[0], "view %d", &cvid)
+	ntx := map[uint64]int{}
+	for pc := range h.view.OldestFirst() {
+		ntx[pc.Block.Number] = len(pc.Block.Transactions)
+	}
+	type pos struct {
+		b      uint64
+		before bool
+		idx    uint64
+	}
+	var todo []pos
 	for b := oldest - 1; b <= tip+1; b++ {
-		before := rng.Chance(35)
-		idx := uint64(rng.Intn(5))
+		todo = append(todo, pos{b, false, 0})
+		if n, in := ntx[b]; in && rng.Chance(50) {
+			for i := 0; i <= n+1; i++ { // every BeforeIndex position, and one past the end
+				todo = append(todo, pos{b, true, uint64(i)})
+			}
+		} else {
+			todo = append(todo, pos{b, true, uint64(rng.Intn(5))})
+		}
+	}
+	// NewChain over the view's own entries (what sync.PreConfirmedChain's fallback uses) is the same view
+	var es []*pending.PreConfirmed
+	for pc := range h.view.OldestFirst() {
+		es = append(es, pc)
+	}
+	if nc, err := preconfirmed.NewChain(es...); err != nil {
+		rn.fail("new-chain:rejects-contiguous", fmt.Sprintf("NewChain over view [%s]: %v", h.canon, err), false)
+	} else if s, _ := canonChain(&nc); s != h.canon || nc.Length() != h.view.Length() {
+		rn.fail("new-chain:differs", fmt.Sprintf("NewChain over view [%s] gives [%s]", h.canon, s), false)
+	}
+	if len(es) >= 2 {
+		if _, err := preconfirmed.NewChain(es[1], es[0]); err == nil {
+			rn.fail("new-chain:accepts-gap", "NewChain accepted non-contiguous entries", false)
+		}
+		if _, err := preconfirmed.NewChain(es[0], nil); err == nil {
+			rn.fail("new-chain:accepts-nil", "NewChain accepted a nil entry", false)
+		}
+	}
+	// BeforeIndex(len(txs)) must read exactly as StateAt, on the real code, for every block of the view
+	for b, n := range ntx {
+		s1, c1, e1 := h.view.PreConfirmedStateAt(b, node.BC)
+		s2, c2, e2 := h.view.PreConfirmedStateBeforeIndexAt(b, uint(n), node.BC)
+		if e1 != nil || e2 != nil {
+			rn.fail("state-at:in-range-error", fmt.Sprintf("block %d of view [%s]: %v / %v", b, h.canon, e1, e2), false)
+			continue
+		}
+		for _, q := range allQueries {
+			if a, bb := readQuery(s1, q), readQuery(s2, q); a != bb {
+				rn.fail("before-index-full-vs-state-at:"+q[:1], fmt.Sprintf("view [%s] block %d %s: PreConfirmedStateAt says %s, PreConfirmedStateBeforeIndexAt(%d,%d) (all its transactions) says %s", h.canon, b, q, a, b, n, bb), false)
+				break
+			}
+		}
+		c1()
+		c2()
+		c.Hist["reads:before-index-full-vs-state-at"]++
+	}
+	for _, p := range todo {
+		b, before, idx := p.b, p.before, p.idx
 		var st core.StateReader
 		var closer func() error
 		var line string
 		if before {
 			st, closer, err = h.view.PreConfirmedStateBeforeIndexAt(b, uint(idx), node.BC)
-			line = fmt.Sprintf("before %d %d %d%s", h.vid, b, idx, qb.String())
+			line = fmt.Sprintf("before %d %d %d%s", cvid, b, idx, qb.String())
 		} else {
 			st, closer, err = h.view.PreConfirmedStateAt(b, node.BC)
-			line = fmt.Sprintf("state %d %d%s", h.vid, b, qb.String())
+			line = fmt.Sprintf("state %d %d%s", cvid, b, qb.String())
 		}
 		ans := rn.or.Ask(line, 1)[0]
 		kind := "state-at"
@@ -882,16 +1018,33 @@ func (rn *runner) checkReads(node *chain.Node, h *held, rng *hx.RNG) {
 			continue
 		}
 		f := strings.Fields(ans)
-		if f[0] != "ok" || len(f) != 2+len(allQueries) {
+		if f[0] != "ok" || len(f) != 3+len(allQueries) {
 			rn.fail("model-mismatch:"+kind+"-error", fmt.Sprintf("%s(%d,%d) on view [%s]: code ok, model %q", kind, b, idx, h.canon, ans), true)
 			closer()
 			continue
 		}
-		fresh := f[1] == "1"
-		c.Hist[fmt.Sprintf("reads:%s:fresh=%v", kind, fresh)]++
+		if ps, ok := st.(*pending.State); ok { // the merged diff handed out is fresh, tries are refused
+			for pc := range h.view.OldestFirst() {
+				if ps.StateDiff() == pc.StateUpdate.StateDiff {
+					rn.fail("immutable:state-diff-aliased", fmt.Sprintf("%s(%d): State.StateDiff() is block %d's stored diff", kind, b, pc.Block.Number), false)
+				}
+			}
+			_, e1 := ps.ClassTrie()
+			_, e2 := ps.ContractTrie()
+			_, e3 := ps.ContractStorageTrie(F(16))
+			if !errors.Is(e1, pending.ErrHistoricalTrieNotSupported) || !errors.Is(e2, pending.ErrHistoricalTrieNotSupported) || !errors.Is(e3, pending.ErrHistoricalTrieNotSupported) {
+				rn.fail("state:trie-access", "a pre-confirmed overlay state handed out a trie", true)
+			}
+		}
+		fresh, freshTx := f[1] == "1", f[2] == "1"
+		c.Hist[fmt.Sprintf("reads:%s:fresh=%v:fresh-per-tx=%v", kind, fresh, freshTx)]++
 		for i, q := range allQueries {
 			got := readQuery(st, q)
-			ms := strings.Split(f[2+i], "/")
+			ms := strings.Split(f[3+i], "/")
+			// the property predicate against what the feeder sent: in-order fold over the wire per-tx diffs
+			if freshTx && q[0] != 'u' && got != ms[2] {
+				rn.fail("overlay-wire-tx-fold:"+q[:1], fmt.Sprintf("%s(%d,%d) %s through view [%s]: code %s, the wire per-transaction diffs folded in order say %s (base %s)", kind, b, idx, q, h.canon, got, ms[2], baseVals[i]), false)
+			}
 			if got != ms[0] {
 				rn.fail("model-mismatch:read:"+q[:1], fmt.Sprintf("%s(%d,%d) %s on view [%s] base %s: code %s, model %s", kind, b, idx, q, h.canon, baseVals[i], got, ms[0]), true)
 			}
@@ -925,6 +1078,23 @@ func (rn *runner) checkLookups(h *held) {
 		} else if !errors.Is(err, pending.ErrTransactionNotFound) {
 			got = "other:" + err.Error()
 		}
+		// per-entry accessors of pending.PreConfirmed: the chain-level answer is the first per-entry hit, newest block first
+		hx := felt.TransactionHash(*F(x))
+		per, perRc := "none", "none"
+		for pc := range h.view.NewestFirst() {
+			if t, idx, e := pc.TransactionByHash(&hx); e == nil && per == "none" {
+				per = "some " + strconv.FormatUint(u64(t.(*core.InvokeTransaction).Nonce), 10)
+				if pc.Block.Transactions[idx] != t {
+					rn.fail("lookup:entry-index", fmt.Sprintf("hash %d: index %d of block %d is another transaction", x, idx, pc.Block.Number), false)
+				}
+			}
+			if r, e := pc.ReceiptByHash(&hx); e == nil && perRc == "none" {
+				perRc = fmt.Sprintf("some %d %d", u64(r.Fee), pc.Block.Number)
+			}
+		}
+		if per != got {
+			rn.fail("lookup:newest-block-wins", fmt.Sprintf("hash %d view [%s]: chain %q, first per-entry hit %q", x, h.canon, got, per), false)
+		}
 		if got != want {
 			rn.fail("model-mismatch:tx-by-hash", fmt.Sprintf("hash %d view [%s]: code %q model %q", x, h.canon, got, want), true)
 		}
@@ -940,6 +1110,9 @@ func (rn *runner) checkLookups(h *held) {
 			got = fmt.Sprintf("some %d %d", u64(rc.Fee), bn)
 		} else if !errors.Is(err, pending.ErrTransactionReceiptNotFound) {
 			got = "other:" + err.Error()
+		}
+		if perRc != got {
+			rn.fail("lookup:newest-block-wins-receipt", fmt.Sprintf("hash %d view [%s]: chain %q, first per-entry hit %q", x, h.canon, got, perRc), false)
 		}
 		if got != want {
 			rn.fail("model-mismatch:receipt-by-hash", fmt.Sprintf("hash %d view [%s]: code %q model %q", x, h.canon, got, want), true)
@@ -1058,8 +1231,8 @@ func (rn *runner) seqCase(caseSeed uint64, nops int, newState bool) {
 	var shadow []slot
 	modelChain := "chain -"
 	var helds []*held
-	before := rn.fails
-	for i := 0; i < nops && rn.fails == before; i++ {
+	before := rn.c.NViolations()
+	for i := 0; i < nops && rn.c.NViolations() == before; i++ {
 		height, err := node.BC.Height()
 		hx.Must(err)
 		x := rng.Intn(100)
@@ -1174,7 +1347,30 @@ func (rn *runner) seqCase(caseSeed uint64, nops int, newState bool) {
 			rn.checkReads(node, h, rng)
 		}
 	}
+	if c.NViolations() != before { // something broke: evaluate the predicates on what the code holds now
+		if height, err := node.BC.Height(); err == nil {
+			rn.windDown(node, st, height+1, rng)
+		}
+	}
 	c.Extra["views_held_sequential"] = addInt(c.Extra["views_held_sequential"], len(helds))
+}
+
+// windDown: after a correspondence break the search goes on with the property's own predicates, on
+// the chain the code holds (every alignment that has a non-empty view).
+func (rn *runner) windDown(node *chain.Node, st *preconfirmed.ChainStorage, opc uint64, rng *hx.RNG) {
+	for n := opc; n < opc+3; n++ {
+		v := st.SnapshotForBlock(n)
+		if v.Length() == 0 {
+			continue
+		}
+		got, _ := canonChain(&v)
+		if !alignedPredicate(&v, n) {
+			rn.fail("snapshot:not-aligned", fmt.Sprintf("SnapshotForBlock(%d) = [%s]", n, got), false)
+		}
+		h := &held{view: v, vid: -1, n: n, canon: got, fp: fingerprint(&v)}
+		rn.checkReads(node, h, rng)
+		return
+	}
 }
 
 func addInt(a any, n int) int {
@@ -1375,11 +1571,35 @@ func directed() [][]Op {
 		{K: "revert"},
 		{K: "snap", N: 3, Why: "head+1", Reads: true},
 	}
-	return [][]Op{two, three}
+	// a later tx / delta / block touching strictly more slots of a contract than accumulated and rewriting one
+	wide := func(v uint64) Diff { return Diff{S: [][3]uint64{{16, 1, v}, {16, 2, v + 1}, {16, 3, v + 2}}} }
+	merge := []Op{
+		{K: "apply", UK: "B", Bn: 3, Opc: 3, ID: 0x201, Why: "bootstrap", Items: []Item{
+			{Hash: 101, Tx: 1, RHash: 101, Rc: 10002, D: Diff{S: [][3]uint64{{16, 1, 5}}}},
+			{Hash: 102, Tx: 2, RHash: 102, Rc: 10004, D: Diff{S: [][3]uint64{{16, 1, 6}, {16, 2, 7}}}}}},
+		{K: "apply", UK: "D", Bn: 3, Bt: 2, Opc: 3, ID: 0x201, Why: "delta-tip", Items: []Item{{Hash: 103, Tx: 3, RHash: 103, Rc: 10006, D: wide(8)}}},
+		{K: "apply", UK: "B", Bn: 4, Opc: 3, ID: 0x202, Why: "extend", Items: []Item{{Hash: 104, Tx: 4, RHash: 104, Rc: 10008, D: Diff{S: [][3]uint64{{16, 1, 1}, {16, 2, 2}, {16, 3, 3}, {16, 4, 4}}}}}},
+		{K: "snap", N: 3, Why: "head+1", Reads: true},
+	}
+	// reverted transactions still bump the nonce and pay the fee: in a full block, in a delta, in an older block
+	acct := func(n, bal uint64) Diff { return Diff{N: [][2]uint64{{17, n}}, S: [][3]uint64{{16, 5, bal}}} }
+	reverted := []Op{
+		{K: "apply", UK: "B", Bn: 3, Opc: 3, ID: 0x201, Why: "bootstrap", Items: []Item{
+			{Hash: 101, Tx: 1, RHash: 101, Rc: 10002, D: acct(1, 9)},
+			{Hash: 102, Tx: 2, RHash: 102, Rc: 10005, D: acct(2, 8)}}},
+		{K: "snap", N: 3, Why: "head+1", Reads: true},
+		{K: "apply", UK: "D", Bn: 3, Bt: 2, Opc: 3, ID: 0x201, Why: "delta-tip", Items: []Item{{Hash: 103, Tx: 3, RHash: 103, Rc: 10007, D: acct(3, 7)}}},
+		{K: "apply", UK: "B", Bn: 4, Opc: 3, ID: 0x202, Why: "extend", Items: []Item{{Hash: 104, Tx: 4, RHash: 104, Rc: 10008, D: Diff{S: [][3]uint64{{17, 1, 1}}}}}},
+		{K: "snap", N: 3, Why: "head+1", Reads: true},
+	}
+	return [][]Op{two, three, merge, reverted}
 }
 
 func main() {
 	c := hx.NewCtx("C20")
+	if os.Getenv("C20_DEBUG_FP") != "" {
+		fpDebug = map[string]string{}
+	}
 	or := hx.StartOracle(c.OraclePath)
 	defer or.Close()
 	rn := &runner{c: c, or: or}
@@ -1388,6 +1608,8 @@ func main() {
 		c.LoadReplay(&rp)
 		if rp.Kind == "conc" {
 			rn.concCase(rp.CaseSeed, rp.NOps, rp.NewState)
+		} else if rp.Kind == "poll" {
+			rn.pollCase(rp.CaseSeed, rp.NOps, rp.NewState)
 		} else {
 			rn.script = rp.Script
 			rn.seqCase(rp.CaseSeed, rp.NOps, rp.NewState)
@@ -1395,9 +1617,9 @@ func main() {
 		c.Finish("replay of one recorded case (re-generated from its case seed)")
 	}
 	rng := hx.NewRNG(c.Seed)
-	nSeq, nConc, budget := 420, 40, 44*time.Second
+	nSeq, nConc, nPoll, budget := 420, 40, 60, 66*time.Second
 	if c.Thorough() {
-		nSeq, nConc, budget = 12000, 600, 20*time.Minute
+		nSeq, nConc, nPoll, budget = 12000, 600, 1500, 20*time.Minute
 	}
 	start := time.Now()
 	// directed minimal cases first (stable replays for what the random search also finds)
@@ -1406,17 +1628,24 @@ func main() {
 		rn.seqCase(7, len(sc), i%2 == 1)
 	}
 	rn.script = nil
-	for i := 0; i < nSeq && time.Since(start) < budget*3/4; i++ {
+	for i := 0; i < nSeq && time.Since(start) < budget*5/10; i++ {
 		rn.seqCase(rng.U64(), 60+rng.Intn(60), i%2 == 1)
 	}
-	for i := 0; i < nConc && time.Since(start) < budget; i++ {
+	for i := 0; i < nConc && time.Since(start) < budget*7/10; i++ {
 		rn.concCase(rng.U64(), 150+rng.Intn(150), i%2 == 1)
+	}
+	for i := 0; i < nPoll && time.Since(start) < budget; i++ {
+		rn.pollCase(rng.U64(), 40+rng.Intn(40), i%2 == 1)
 	}
 	c.Extra["backends"] = "both state backends alternate (WithNewState false/true) for the canonical base"
 	c.Extra["universe"] = map[string]any{"contracts": addrs, "deployed_in_base": baseDeploy, "slots": slots, "class_hashes": classes, "tx_hashes": []uint64{hashLo, hashHi - 1}, "queries_per_state": len(allQueries)}
 	c.Finish("sequential cases: 60-120 ops each (62% ApplyUpdate of every variant incl. every rejected call, AdvanceTo to the head or arbitrary, " +
 		"real head advance / RevertHead on a Blockchain, SnapshotForBlock(head+1 or arbitrary) followed by all state reads at every block of the view " +
-		"+-1 (PreConfirmedStateAt / BeforeIndexAt, 66 queries) and all tx/receipt lookups); after every op: result, affected entry, whole chain vs model, " +
+		"+-1 (PreConfirmedStateAt, and PreConfirmedStateBeforeIndexAt at every tx position, 90 queries each; reads compared with the model, with the block-by-block fold " +
+		"and with the in-order fold of the WIRE per-transaction diffs; BeforeIndex(len) vs StateAt on the code) and all tx/receipt lookups; receipts SUCCEEDED/REVERTED; " +
+		"per-contract storage maps of 1..5 slots with overlapping keys across txs/blocks/deltas); after every op: result, affected entry, whole chain vs model, " +
 		"fingerprints of all views held. concurrent cases: 150-300 writer ops with 4 lock-free readers; each view must equal the model's snapshot of a " +
-		"chain published in its load window and keep its deep fingerprint")
+		"chain published in its load window and keep its deep fingerprint. poller cases: the real preconfirmed.Poller.Run for 40-80 ticks against a scripted " +
+		"data source (delta / no-change / new round / re-sent block / jumps ahead requiring backfill with class fetches / feeder errors / stale answers), the real head " +
+		"advancing or reverting under a tick, not-at-tip pauses; the calls of each tick are replayed as AdvanceTo + ApplyUpdate ops on the model")
 }
